@@ -111,6 +111,7 @@ def handle (j : Json) : Except String Verdict := do
     let mut st : St := { root := root0 }
     let mut agree := true
     let mut c10 := "pass"
+    let mut c03 := "pass"
     let mut c16 := "pass"
     let mut c18 := "pass"
     let mut sig := ""
@@ -205,6 +206,17 @@ def handle (j : Json) : Except String Verdict := do
               sig := "hist/build/decoded-differs"
               why := s!"build #{nbuilt} (op #{i}): decoded arrays differ between model and implementation"
           if iarrs != marrs then phys := false
+          -- C03 along histories (`Props.C10.C10_builds_wf`): every build returns well-formed arrays of the declared
+          -- fields, one per field, each with exactly the rows of its batch — also from a reused builder
+          if !fsb0 then
+            let wfAll := iarrs.length == fields.length &&
+              (fields.zip iarrs).all (fun (f, a) => SaModel.Spec.WF f a && (decodeAll a).length == st.batch.length)
+            if !wfAll then
+              c03 := "fail"
+              if sig == "" || sig.startsWith "hist/build/decoded" then
+                let bad := (fields.zip iarrs).findIdx? (fun (f, a) => !(SaModel.Spec.WF f a && (decodeAll a).length == st.batch.length))
+                sig := s!"hist/C03/not-wf/build{if nbuilt == 0 then "0" else "N"}/{((bad.bind (fun i => fields[i]?)).map (·.dataType.ctor)).getD "count"}"
+                why := s!"build #{nbuilt} (op #{i}) with {st.batch.length} rows returns an array that is not a well-formed array of its field"
           -- C10: exactly the rows of this batch, in order
           let interps := st.batch.map (interpRow ext fields)
           let malformed := interps.any isMalformed || st.batch.any containsMalformed
@@ -244,6 +256,6 @@ def handle (j : Json) : Except String Verdict := do
       i := i + 1
     let tags := tags0 ++ [s!"builds:{nbuilt}", if phys then "phys-eq" else "phys-diff"]
     let tags := if nbuilt == 0 then "trivial" :: tags else tags
-    return { agree := agree, spec := [("C10", c10), ("C16", c16), ("C18", c18)], tags := tags, sig := sig, why := why }
+    return { agree := agree, spec := [("C10", c10), ("C03", c03), ("C16", c16), ("C18", c18)], tags := tags, sig := sig, why := why }
 
 end Driver.Suites.Hist
